@@ -189,6 +189,26 @@ def run(ctx):
     ctx.sample(dict(op="Mnemonic::from_phrase", phrase=texts[1], result=str(impl[1])[:200]))
     ctx.sample(dict(op="Mnemonic::from_phrase", phrase=" ".join(["abandon"] * 12 + ["absent"]), expected="error (13 words)"))
 
+    # massive sampling of the word lookup (any lossy comparison — truncated keys, fingerprints — accepts some non-list token):
+    # millions of pseudo-random lower-case tokens; whatever passes the lookup must be a list word
+    per = 4000000 if not thorough else 40000000
+    hunts = ctx.harness([("mnemonic.hunt", str(ctx.seed * 1000 + i + 1), str(per)) for i in range(16)], timeout=900)
+    passed = set()
+    for h in hunts:
+        if h.tag == "ok":
+            passed |= set(h.fields[0].decode().split())
+        else:
+            ctx.violation("lookup-hunt:abnormal", dict(op="mnemonic.hunt"), "completes", str(h)[:200])
+    ctx.count("word-lookup-sampling", 16 * per)
+    stray = sorted(t for t in passed if t not in widx)
+    ctx.note("word-lookup sampling: %d tokens, %d passed the lookup, %d of them are not list words" % (16 * per, len(passed), len(stray)))
+    for t in stray[:3]:
+        # confirm with a concrete phrase: some final word makes the checksum fit
+        tail = ["abandon"] * 10
+        rs = ctx.harness([("mnemonic.parse", " ".join([t] + tail + [w])) for w in wl])
+        hit = [w for w, r in zip(wl, rs) if r.tag == "ok"]
+        ctx.violation("unknown-word-accepted", dict(op="Mnemonic::from_phrase", phrase=" ".join([t] + tail + hit[:1]) if hit else None, token=t),
+                      "error (not a word of the list)", "the lookup takes %r for a list word%s" % (t, "; accepted phrase found" if hit else ""))
     # parse(print(x)) through the implementation itself and entropy -> phrase in the model (the generation direction)
     ents = [rbytes(rng, n) for n in LENS.values() for _ in range(4 if not thorough else 40)]
     mo = ctx.model(["c01_of_entropy %s" % pb(e) for e in ents], label="C01ent")
